@@ -229,6 +229,9 @@ type Def struct {
 	Disp   bool   `json:"disp"`
 	Comp   bool   `json:"comp"`  // completion family: every word sequence is run as a COMP_LINE for bash and zsh
 	HelpF  bool   `json:"helpf"` // help family: the help of every command level is requested through all paths
+	// determinism-only family: the definition is outside what the specification admits (two options share a key along
+	// one root-to-leaf chain); its cases are compared with their own repetitions only (C20)
+	NDOnly bool `json:"ndonly,omitempty"`
 	// history family: every argv is also run after an earlier Parse of each of these argument lists on the same object
 	Pres [][]Tok `json:"pres,omitempty"`
 }
@@ -246,6 +249,8 @@ type Case struct {
 	UseRaw  bool     `json:"useraw,omitempty"`
 	RawLine string   `json:"rawline,omitempty"`
 	RawArgs []string `json:"rawargs,omitempty"`
+	// determinism-only case: nothing but the nondet observable is compared
+	NDOnly bool `json:"ndonly,omitempty"`
 	// history case: an earlier Parse(Pre) ran on the same object before the observed Parse(Argv)
 	HasPre bool  `json:"haspre,omitempty"`
 	Pre    []Tok `json:"pre,omitempty"`
